@@ -525,8 +525,10 @@ def lib_histories(thorough=False):
                   ("node[0-2],alpha,n[00-03]", ["node0", "alpha,node0", "n[02,00]", "node[2,0],alpha", "n00"])]:
         for x in xs:
             out.append(["new", "push " + t, "find " + split_top(x)[0], "delete " + x, "hosts 200", "count"])
-    # a name whose digit tail overflows strtoul (errno stays ERANGE in the process) looked up / deleted / pushed BEFORE
-    # names that have to be found inside a range record: the later answers must not depend on it
+    # a name whose digit tail overflows strtoul (errno = ERANGE afterwards) looked up / deleted / pushed BEFORE names
+    # that have to be found inside a range record: the later answers must not depend on it.  (Between two ops the
+    # harness's own stdio may overwrite errno: the histories that carry the long name and the others in ONE
+    # hostlist_delete call are the ones that keep errno as the library left it — verified on seeded C02-13.)
     for poison in ["job20240929102030123456789", "n18446744073709551616", "99999999999999999999"]:
         out.append(["new", "push foo[1-5],bar", "find " + poison, "find foo3", "delete " + poison, "delete foo3", "hosts 200",
                     "find foo3", "find foo4", "count"])
